@@ -18,7 +18,7 @@ package cholesky
 
 /* -------------------------------------------------------------------------- */
 
-//import   "fmt"
+import   "fmt"
 
 import . "github.com/pbenner/autodiff"
 
@@ -71,11 +71,18 @@ func Run(a ConstMatrix, args ...interface{}) (Matrix, Matrix, error) {
   // allocate memory
   if inSitu.L == nil {
     inSitu.L = NullDenseMatrix(t, n, n)
+  } else {
+    if n1, m1 := inSitu.L.Dims(); n1 != n || m1 != n {
+      return nil, nil, fmt.Errorf("L has invalid dimension (%dx%d instead of %dx%d)", n1, m1, n, n)
+    }
   }
   if ldl {
     if inSitu.D == nil {
       inSitu.D = NullDenseMatrix(t, n, n)
     } else {
+      if n1, m1 := inSitu.D.Dims(); n1 != n || m1 != n {
+        return nil, nil, fmt.Errorf("D has invalid dimension (%dx%d instead of %dx%d)", n1, m1, n, n)
+      }
       inSitu.D.Map(func(x Scalar) { x.SetFloat64(0.0) })
     }
   }
